@@ -60,6 +60,37 @@ def standin_rejection_histories(tier, seed):
                             violations.append(dict(key=f"after a {'partial (all individuals) ' if partial else ''}rejection of a proposal on {name}, {k} does not read as if the proposal had never been made",
                                                    model=f"{kind}{kw}", read_before=list(before), read_between=list(between)))
                             break
+        # the COPY fork type ("independent of the originals"): the caller may update the old value in place after the proposal
+        for name in latents:
+            children = list(dag.sorted_children[name])
+            for partial in ([False, True] if isinstance(dag[name], IndividualLatentVariable) else [False]):
+                def prepared_copy():
+                    st = base.clone()
+                    st.auto_fork_type = None
+                    st[name] = st[name].clone()
+                    st.auto_fork_type = StateForkType.COPY
+                    for k in children:
+                        st[k]
+                    return st
+                ref, st = prepared_copy(), prepared_copy()
+                old = st[name]
+                torch.manual_seed(seed)
+                st[name] = old + 0.05 * torch.randn(old.shape)
+                ind_axis = [k for k in children if k in ("rt", "model", "alpha", "nll_attach_ind", "nll_regul_ind_sum_ind") or k.endswith("_ind")]
+                for k in (ind_axis[:2] if partial else children[:2]):      # documented precondition of a per-individual rejection
+                    st[k]
+                old.mul_(1.5).add_(0.25)                  # in-place update of the caller's old tensor
+                if partial:
+                    st.revert(torch.ones(ds.n_individuals, dtype=torch.bool))
+                else:
+                    st.revert()
+                evals += 1
+                distinct.add((kind, str(kw), name, "COPY", partial))
+                for k in [name] + children:
+                    if not same_value(st[k], ref[k], exact=True):
+                        violations.append(dict(key=f"COPY fork: after the old tensor of {name} was updated in place and the proposal rejected, {k} does not read as before the proposal",
+                                               model=f"{kind}{kw}", partial=partial))
+                        break
         if len(samples) < 2:
             samples.append(dict(model=f"{kind}{kw}", latents=latents))
     uniq = {v["key"]: v for v in violations}
